@@ -377,8 +377,10 @@ def run_driver(bindir, seqs):
     return res
 
 
-def run_model(ctx, seqs, nshard=16):
-    """-> (entries per sequence, uprooted per sequence or 'P')."""
+def run_model(ctx, seqs, nworkers=16, per_file=6000):
+    """-> (entries per sequence, uprooted per sequence or 'P'). Files of at most ~6000 sequences (a coqc on 60000
+    sequences needs 3 GB), interleaved so that the long random sequences are spread evenly."""
+    nshard = max(nworkers, (len(seqs) + per_file - 1) // per_file)
     d = os.path.join(VERIF, "coq", "UF")
     os.makedirs(os.path.join(d, "gen"), exist_ok=True)
     parts = [(i, seqs[i::nshard]) for i in range(nshard) if seqs[i::nshard]]
@@ -395,9 +397,9 @@ def run_model(ctx, seqs, nshard=16):
                 chunk = ";\n ".join(to_coq(s) for s in ss[i:i + BATCH])
                 fh.write("Eval vm_compute in (flat_batch [%s]).\n" % chunk)
                 fh.write("Eval vm_compute in (flat_map upr [%s]).\n" % chunk)
-        rc, out = sh("ulimit -s unlimited 2>/dev/null; exec coqc -noglob -Q . UF gen/cases_c05_%d.v" % idx, cwd=d, timeout=3000)
+        rc, out = sh("ulimit -s unlimited 2>/dev/null; exec coqc -noglob -Q . UF gen/cases_c05_%d.v" % idx, cwd=d, timeout=7200)
         if rc != 0:
-            raise RuntimeError("coqc failed on %s: %s" % (f, tail(out, 10)))
+            raise RuntimeError("coqc failed (rc %d) on %s: ...%s" % (rc, f, tail(out, 3)[-200:]))
         blocks = []
         for chunk in out.split(": list N"):
             body = chunk.split("=", 1)
@@ -448,7 +450,7 @@ def run_model(ctx, seqs, nshard=16):
 
     ctx.checker_cmds.append("cd coq/UF && coqc -noglob -Q . UF gen/cases_c05_*.v")
     out, ups = [None] * len(seqs), [None] * len(seqs)
-    with ThreadPoolExecutor(max_workers=nshard) as ex:
+    with ThreadPoolExecutor(max_workers=nworkers) as ex:
         for (idx, _), (r, u) in zip(parts, ex.map(one, parts)):
             out[idx::nshard] = r
             ups[idx::nshard] = u
